@@ -93,8 +93,13 @@ a bare document whose root satisfies `bl2`, i.e. is built from
   without the explicit indentation indicator, any admissible text (`strOk`: printable lines, no
   line of spaces only, leading-space first line only with the indicator; folded: no line starting
   with a space, no leading line feed, folds at any set of single spaces between two words).
-Not in this layer: block scalars at the document root (3), comment / blank lines and trailing
-comments (4), anchors and aliases (6), `---` / `...` and several documents (7). -/
+* and (layer 4) comment lines and blank lines before any entry (except the first entry of the root
+  collection and of a compact collection), trailing comments ` #…` after any entry's scalar, flow
+  collection, block scalar header, `key:` or `-` (not on the line of a compact collection); a blank
+  line never directly after a keep-chomped block scalar.
+Not in this layer: block scalars at the document root (3), filler lines before the document's first
+line and a trailing comment on the root node (4), anchors and aliases (6), `---` / `...` and several
+documents (7). -/
 theorem render_load_block (x : PNode) (g : Nat) (h : x.bl2 .root = true) :
     loadRef (render (bareStream x g)) = .ok [x.tree] := by
   rw [render_load_bytes]; exact loadChars_block2 x g h
@@ -134,12 +139,31 @@ example : (bareStream exL3 0).chars =
     "a: |\n  x\n    y\n\n  z\nb:\n  - |3-\n      lead\n     k: v # no comment\n  - c: |+\n     t\n\n\nd: |1-\n\ne: >+\n  one\n  two three\n\n  four\n\n\n  five\n  six\n\nf:\n- >4-\n    k: v # x\n- 1\n".toList := by
   decide +kernel
 
+/-- Non-vacuity for layer 4: comment and blank lines between entries at several depths, trailing
+comments after scalars, after `key:`, after a block scalar header and after a flow collection. -/
+def exL4 : PNode :=
+  .map false 0 false (.cons { trail := some " t: 1".toList } "a".toList .plain (.int 1 0)
+    (.cons { fill := [.blank, .comment " about b".toList], trail := some " on key line".toList } "b".toList .plain
+      (.seq false 2 false (.cons { fill := [.comment "in".toList] } (.str "x".toList .plain)
+        (.cons { trail := some "e".toList } (.null 4)
+        (.cons { fill := [.blank], trail := some " hdr".toList } (.str "l\n".toList (.literal .clip 2 false)) .nil))))
+    (.cons { fill := [.comment "".toList, .blank], gap := 1, trail := some " [".toList } "c".toList .plain
+      (.seq true 0 false (.cons {} (.int 2 0) .nil)) .nil)))
+
+example : exL4.bl2 .root = true := by decide +kernel
+example : admissible (bareStream exL4 0) = true := by decide +kernel
+example : (bareStream exL4 0).chars =
+    "a: 1 # t: 1\n\n# about b\nb: # on key line\n  #in\n  - x\n  - #e\n\n  - | # hdr\n    l\n#\n\nc:  [2] # [\n".toList := by
+  decide +kernel
+
 /-- Layer 3, the remaining part: a block scalar as the root node of a document — finite family only
 (block scalars below the root are proved for all presentations by `render_load_block`; the family
 also contains such). -/
 theorem render_load_partial_root_block_scalars : familyBlockScalar.all loadsBack = true := by decide +kernel
 
-/-- Layer 4 (comments and blank lines) — finite family only. -/
+/-- Layer 4, the remaining part: filler lines before the document's first line, trailing comment on the
+root node — finite family only (comments and blank lines between entries and trailing comments on entries
+are proved for all presentations by `render_load_block`). -/
 theorem render_load_partial_comments : familyComments.all loadsBack = true := by decide +kernel
 
 /-- Layer 6 (anchors and aliases) — finite family only. -/
